@@ -249,7 +249,7 @@ pub fn one_history(id: u64, seed: u64, max_ops: usize, max_len: usize, panics: b
         let saved_overrun = src.overrun_at.take();
         let saved_intr = src.intr_pm;
         src.intr_pm = 0;
-        let cap = rng.gen_range(1..=8usize);
+        let cap = rng.gen_range(0..=8usize);
         let stats = src.stats();
         let mut br = BufReader::with_capacity(cap, src);
         let got = br.fill_buf().map(|b| b.len()).unwrap_or(0);
